@@ -152,7 +152,10 @@ Definition report (b : binding) (used qual : bool) : option rep :=
         else Some (mk_rep b w)                                   (* :96-97 *)
     end.
 
-(* Flow.add_name (scope.py:73-80): global-declared names never reach a flow *)
+(* Flow.add_name (scope.py:79-95): global-declared names never reach a flow.  A comprehension variable
+   (add_name(..., comprehension=True)) is inserted without consulting the declarations of the enclosing
+   scope - it is local to the comprehension - so for KComp both b_global and b_gseen are false by
+   construction of the record (the harness's syntactic pass sets them so, as CPython's symtable does). *)
 Definition in_all_names (b : binding) : bool := negb (b_gseen b).
 
 (* ---- IMPL: the usage loop, linter.py:40-70 --------------------------------------------------
